@@ -10,7 +10,7 @@ import lib.compat  # noqa
 from migen import *
 from litedram.common import LiteDRAMNativePort
 from lib.fastsim import FastSim, MigenSim, compile_dut, HarnessError
-from lib.native import NativeSlave, schedule_iter
+from lib.native import NativeSlave, schedule_iter, native_slave, slave_style
 
 _CACHE = {}
 
@@ -157,7 +157,7 @@ class FifoRun:
 
 
 def make_slave(dut, sl):
-    slave = NativeSlave([dut.wport, dut.rport], ready_pattern=None, wlat=sl.get("wlat"), rlat=sl.get("rlat"), qmax=sl.get("qmax", 8))
+    slave = native_slave([dut.wport, dut.rport], dict(sl, ready=None))
     # per-port command stall schedules (NativeSlave's constructor takes one pattern for all ports)
     slave.ready = [schedule_iter(sl.get("ready_w")), schedule_iter(sl.get("ready_r"))]
     return slave
@@ -329,6 +329,10 @@ def run_fifo(cfg, stim, backend="fast", clause_prefix="C13", trace=None, max_cyc
                 break
         else:
             quiet = 0
+    if hasattr(slave, "finish") and not fs:
+        slave.finish(t)
+        if slave.lost:
+            fs.append(dict(clause=P + ".extra_write_beat", key=tag + sig_suffix(early_bypass, pumped, nonempty_exit), what="stream-style port: more write-data beats than write commands were put on the write port"))
     if not fs and not done:
         fs.append(dict(clause=P + ".hang", key=tag + sig_suffix(early_bypass, pumped, nonempty_exit), what="after %d cycles (both sides permanently willing since cycle %d): %d/%d words accepted from the producer, %d/%d delivered to the consumer; level=%d, %d memory locations hold unread words, slave idle=%s%s" % (
             t, max(stim["prod"].get("horizon", 0), stim["cons"].get("horizon", 0)), prod.i, n, len(cons.got), n, sim.get(level_sig), len(occ), slave.idle(),
@@ -462,10 +466,12 @@ def sched_strategy(draw, cfg, role, horizon):
 @st.composite
 def slave_strategy(draw):
     pats = [None, None, None, [1, 1], [3, 2], [1, 5], [8, 1, 1, 3], [0, 6, 4, 1], [2, 9], [30, 25]]
-    return dict(ready_w=draw(st.sampled_from(pats)), ready_r=draw(st.sampled_from(pats)),
-                wlat=draw(st.lists(st.integers(3, 14), min_size=1, max_size=4)),
-                rlat=draw(st.lists(st.integers(5, 24), min_size=1, max_size=4)),
-                qmax=draw(st.integers(1, 12)))
+    d = dict(ready_w=draw(st.sampled_from(pats)), ready_r=draw(st.sampled_from(pats)),
+             wlat=draw(st.lists(st.integers(3, 14), min_size=1, max_size=4)),
+             rlat=draw(st.lists(st.integers(5, 24), min_size=1, max_size=4)),
+             qmax=draw(st.integers(1, 12)))
+    d.update(slave_style(draw, st))      # the FIFO's ports may be clock-domain-crossing / converted ports of the crossbar
+    return d
 
 
 @st.composite
